@@ -2,7 +2,7 @@
 # usage: tools/verify_seed.sh <dir with patch.diff demo.py>  -> prints suite result and demo exits (with patch / pristine)
 D=$(readlink -f "$1"); WT=/var/tmp/vseed-$$
 git -C /repo worktree add -q "$WT" HEAD || exit 2
-if git -C "$WT" apply "$D/patch.diff"; then
+if git -C "$WT" apply "$D/patch.diff" 2>/dev/null || git -C "$WT" apply --3way "$D/patch.diff"; then
   S=$(cd "$WT" && /venv/bin/python -m pytest -q -p no:cacheprovider -q 2>&1 | tail -1)
   (cd "$D" && PYTHONPATH="$WT" timeout 300 /venv/bin/python demo.py >/dev/null 2>&1); A=$?
   git -C "$WT" checkout -q -- .
